@@ -471,6 +471,9 @@ impl Builder<ConnectedTerms> {
         gene_name: &str,
         term_id: HpoTermId,
     ) -> HpoResult<()> {
+        if self.hpo_terms.get(term_id).is_none() {
+            return Err(HpoError::DoesNotExist);
+        }
         self.add_gene(gene_name, gene_id);
         let gene = self
             .genes
@@ -528,6 +531,9 @@ impl Builder<ConnectedTerms> {
         omim_name: &str,
         term_id: HpoTermId,
     ) -> HpoResult<()> {
+        if self.hpo_terms.get(term_id).is_none() {
+            return Err(HpoError::DoesNotExist);
+        }
         self.add_omim_disease(omim_name, omim_id);
         let gene = self
             .omim_diseases
@@ -586,6 +592,9 @@ impl Builder<ConnectedTerms> {
         orpha_name: &str,
         term_id: HpoTermId,
     ) -> HpoResult<()> {
+        if self.hpo_terms.get(term_id).is_none() {
+            return Err(HpoError::DoesNotExist);
+        }
         self.add_orpha_disease(orpha_name, orpha_id);
         let gene = self
             .orpha_diseases
